@@ -356,7 +356,7 @@ def run(ctx):
     ctx.assumptions = ['continuous-time simulators consume the same draws in both return modes (asserted by C18)',
                        'discrete-time: tmax-tmin whole or infinite, deterministic rule']
     for sim in simrun.SIMS:
-        run_hypothesis(ctx, 'modes', c10_case(sim), prop_case, 100 if quick else 4000, rounds=3)
+        run_hypothesis(ctx, 'modes', c10_case(sim), prop_case, 130 if quick else 4000, rounds=3)
         run_hypothesis(ctx, 'large', large_c10_case(sim), prop_case, 20 if quick else 300, rounds=2, case_timeout=300)
     from . import c12
     run_hypothesis(ctx, 'discrete-table', c12.table_case(), prop_discrete_table, 400 if quick else 10000)
